@@ -170,7 +170,7 @@ CHECKS = {
        "truncate_safe (every value of a committed tx >= n that was readable stays readable, whatever the truncation returns), truncate_idempotent, "
        "truncate_monotone (n <= m: what TruncateUptoTx(n) deletes, TruncateUptoTx(m) deletes), headers_untouched + current_chunk_kept (only chunk files change, only removed, never the active one), "
        "export_total, export_full_after_truncate (tx >= n exported in full, mutex free), export_releases_lock (EVERY exit of the entry loop, the two 'partially truncated' errors included, "
-       "has released _valBsMux) + export_keeps_mutex_free (so no sequence of ExportTx calls blocks; the former failing histories of F4 are kept as examples); a witness of the negation for the defect "
+       "has released _valBsMux) + export_keeps_mutex_free (so no sequence of ExportTx calls blocks; the former failing histories of F4 are kept as examples), export_wholly_truncated_by_digest + export_partially_truncated_refused (an empty value is neutral for the 'all or none' guards: a tx all of whose non-empty values are gone goes out by digest, empty values included, wherever they stand; a tx whose non-empty values are partly readable is refused); a witness of the negation for the defect "
        "left in the code: truncate_unsafe_for_inflight_writer (K6: values staged before the truncation by a tx that commits after it are deleted); empty_first_value_blocks_truncation (effectiveness gap); "
        "walks_as_in_code (the loop headers of TruncateUptoTx regenerated from the source at every run are the ones the model transcribes: forward walk from minTxID to a variable defined as s.LastCommittedTxID() and written nowhere else), "
        "front_walk_ends_at_last + front_walk_covers_every_later_tx (the tombstone of a vlog is at or below the first value of EVERY committed tx n..last of that vlog, however far from n), "
@@ -192,14 +192,14 @@ CHECKS = {
        "ReplicateTx -> precommit with a supplied header, every check in the code's order -> performPrecommit, sync/mayCommit, DiscardPrecommittedTxsSince, "
        "AllowCommitUpto at store and database level, close/reopen re-loading the tx log; the ack protocol of synchronous replication), abstract hash, "
        "conclusions Good ∨ explicit collision: export_parse_roundtrip (values, empty values, by-digest form, v0/v1, any metadata; trailer optional); "
-       "replica_prefix_partial (ANY schedule of deliveries drawn from a genuine primary history — out of order, duplicates, retries, with/without skipIntegrityCheck, "
-       "interleaved with syncs, discards, allowances, restarts — leaves the replica with, position by position, the primary's first transactions: header, Alh, entries — under the hypothesis that the pooled Tx holds a zero BlRoot whenever a BlTxID=0 tx is expected; the unconditional statement is refuted by stale_blroot_breaks_rereplication) "
+       "replica_prefix (ANY schedule of deliveries drawn from a genuine primary history — out of order, duplicates, retries, with/without skipIntegrityCheck, "
+       "interleaved with syncs, discards, allowances, restarts — leaves the replica with, position by position, the primary's first transactions: header, Alh, entries; full strength since the repair of performPrecommit, which left the pooled Tx's BlRoot in a tx with BlTxID=0 — the former counterexample run is rereplication_from_genesis_restores_tx1) "
        "and replica_accepts_next (completeness of the checks); replica_holds_wellformed_chain + replica_agrees_upto_matching_alh (ARBITRARY delivered bytes: the chain is always well formed, and a matching Alh at position n means the primary's headers, Alhs and entries up to n — the guarantee behind db.AllowCommitUpto(txID, alh)); replica_rejects_nonextending / _unparsable / replica_rejection_keeps_state (rejected without effect); replicateTx_parser_never_panics and the former panic inputs restated as rejected without effect (replica_rejects_malformed_trailer: trailer of one byte / of length 0; replica_rejects_cut_value_length: export cut inside vLen after kv-metadata); "
        "replica_rejects_altered_entries + entries_hash_binds_entries + value_hash_binds_value (integrity check on); accumulated_hash_binds_header; "
        "sync replication over all interleavings: primary_commit_needs_acks (committed ≥ n ⇒ syncAcks distinct replicas informed a durable precommit ≥ n), "
        "replica_commit_after_primary, primary_commit_within_allowance, reports_bounded. The unqualified sentence 'an altered export is rejected without effect' is FALSE for "
        "the code and is refuted by witness theorems: altered_ts_accepted, altered_txmd_accepted (K3), skip_integrity_ignores_eh, values_stripped_accepted_same_alh, "
-       "allowance_survives_discard, buffer_full_rejection_is_reloaded, stale_blroot_breaks_rereplication; altered_header_detected_partial is the proved part (Alh differs ⇒ db.AllowCommitUpto refuses, successor rejected). "
+       "allowance_survives_discard, buffer_full_rejection_is_reloaded; altered_header_detected_partial is the proved part (Alh differs ⇒ db.AllowCommitUpto refuses, successor rejected). "
        "Acknowledgements only cover durable state (Store/ReplicaDisk.lean: the store with its disk — which tx-log records are fsynced, the watermark wait, close/reopen, power loss): ack_covers_only_fsynced_records / ack_on_disk_preserved "
        "(on a Synced store, after ANY sequence of deliveries of arbitrary bytes, syncs, discards, allowances and power losses, the first `durable` records of the chain — what PrecommittedAlh() reports to the primary, what ReplicateTx returned for, what WaitForTx lets pass — are committed or FSYNCED live tx-log records, committed ≤ durable ≤ in-memory precommitted; a discard has to recede the watermark for this), wait_passes_iff_within_watermark, "
        "restart_after_full_sync_keeps_ack_on_disk, acked_prefix_survives_crash_partial (a power loss keeps the acknowledged prefix when no discarded record lies in the fsynced log), replica_reports_within_held (id-level protocol, all interleavings); refuted for the code as written by "
@@ -225,7 +225,7 @@ CHECKS = {
        "tie: the committed tx through the Lean writer (c15 xp.enc) must give every distinct byte string handed out, which the Lean parser/writer read back (c07 parse, c07 xrt). The evidence reports export_max_in_flight_per_store (1 before this part existed; inconclusive below 2). "
        "Liveness: every call of the code under test runs under a watchdog (20 s): a call that does not return is the oracle failure C07:<api>:hang with the operation trace as replay and abandons the scenario. The transient back-pressure answer ErrMaxConcurrencyLimitExceeded (Tx holder pool empty, timing dependent) is repeated by the harness and only counted: it is neither compared with the model nor a rejection.",
   note=TB + " Modelled rather than verified: aht.RootAt is replaced by its specification mth (C08 aht_root); one ReplicateTx call is one atomic step (a call that must wait for tx ID-1 is the "
-       "outcome 'blocked'; concurrent deliveries are linearised by the harness); entriesByKey is keyed by key (Go: sha256(key)); the pooled Tx's BlRoot is modelled for sequential use of the pool (proof/read calls on the replica between deliveries are not tracked); stale bytes after the re-loaded chain are assumed not to parse as a chaining record; the ack protocol "
+       "outcome 'blocked'; concurrent deliveries are linearised by the harness); entriesByKey is keyed by key (Go: sha256(key)); stale bytes after the re-loaded chain are assumed not to parse as a chaining record; the ack protocol "
        "is modelled on ids only (Alh comparisons of ExportTxByID are in the byte model / oracle); gRPC streaming and the TxReplicator goroutines (pkg/replication) are not modelled: the harness plays "
        "fetchNextTx by hand. Crash model of the disk theorems: fsync granularity = whole tx-log records, an fsync happens only inside sync() (true for the default buffer/file sizes; the harness also runs small buffers/chunks, oracle only); value logs and the AHT are not in the disk model (the oracle reads values back from the crash image). "
        "Several exporters: model 1 takes one ExportTx call as one atomic read of the committed history (a specification; the harness compares the real concurrent answers with it), model 2 covers the scratch buffer and its mutex only (statement granularity; the value cache, the value-log handles and the Tx holder pool are exercised by the harness, not modelled). "
@@ -258,9 +258,9 @@ CHECKS = {
        "'partially truncated').",
   note=TB + " Modelled rather than verified: atomicity of critical sections (lock granularity; goroutine interleavings below that and the watcher hubs are only sampled by the "
        "concurrent runs), tx-log/commit-log at record granularity (byte layout, chunk rotation and flush timing are exercised by the harness, not modelled; a tx-log write is in place and keeps "
-       "the records behind it iff the serialized sizes agree, otherwise they are treated as lost; the flush-dependent fate of a record written by a failed cLogBuf.put is avoided by the harness), the KV index (precondition verdicts are supplied by the harness), "
-       "a pooled tx holder's stale BlRoot when BlTxID = 0 (known finding; an input of the model ops, observed on the stored header); in the value-log part: the placement of staged values is observed (tx log + chunk files on disk), not predicted, and index maintenance / restart are "
-       "no-ops on tx log and value logs by definition of the model (exercised by the harness). Six signatures of genuine defects are registered as known findings.",
+       "the records behind it iff the serialized sizes agree, otherwise they are treated as lost; the flush-dependent fate of a record written by a failed cLogBuf.put is avoided by the harness), the KV index (precondition verdicts are supplied by the harness); "
+       "in the value-log part: the placement of staged values is observed (tx log + chunk files on disk), not predicted, and index maintenance / restart are "
+       "no-ops on tx log and value logs by definition of the model (exercised by the harness). Five signatures of genuine defects are registered as known findings (the stale BlRoot of a tx with BlTxID = 0 is repaired: own_commit_empty_tree_zero_blroot, replicated_bltxid_zero_stores_zero_blroot).",
   technique="Lean 4 proof (invariant + induction over op lists) + step-by-step differential correspondence + full-history re-read oracle on the real store",
   design="7/C02"),
  "C19": dict(
@@ -281,10 +281,16 @@ CHECKS = {
        "is an end, the dual proof verified, new state = target), verifyDocument_entry_in_tx (if the proof header with that id is the genuine header of the tx then "
        "(md, document key, H(EncodedDocument)) is one of the tx's entries, or a collision of H) , bound_requires_alh and verifyDocument_short_row_rejected (an EncodedDocument shorter than a slice offset is refused with ErrInvalidProof - the former panic, repaired in /repo); tied by `c19 vdoc` on every proof round: genuine "
        "proofs for every relation known-state/document-tx (none, older, equal, newer) and ~20 kinds of coherent forgeries (payload+hValue+eH rebuilt, headers moved between "
-       "the ends, another tx under the proved id, same id other Alh, entries added/removed, cut rows), judged by a ground-truth oracle (stored revisions + genuine Alh per tx).",
-  note=TB + " Modelled rather than verified / outside the Lean fragment (oracle only): UUID fields, LIKE/NOT_LIKE, secondary and unique indexes and the SQL planner, "
+       "the ends, another tx under the proved id, same id other Alh, entries added/removed, cut rows), judged by a ground-truth oracle (stored revisions + genuine Alh per tx). "
+       "Secondary indexes (since seeded change c19-c): Doc/SqlBridge.lean translates a compiled document query into the single-table SELECT embedded/document issues (column order, "
+       "left-nested AND/OR, constants, ORDER BY) and runs it through the C11 planner model (index choice, key window of keyReaderSpecFrom, sort step, OFFSET/LIMIT) over ANY list of "
+       "secondary indexes: search_through_any_index (the ids returned through whatever plan are, as a multiset, those of the index-free specification `search`), "
+       "search_through_any_index_sorted, search_through_any_index_paged, translated_filter_faithful, compiled_query_typed; tied by `c19 ixsearch` on every fragment query (id lists, "
+       "the collection's real index list). The harness shapes queries RELATIVE to the indexes (bound class of the leading field x bound class of the next field x ORDER BY covered "
+       "asc/desc/continued/not covered x OR groups x LIMIT/pages, also for replace/delete) over dense data, and sweeps all 25 x 2 combinations deterministically.",
+  note=TB + " Modelled rather than verified / outside the Lean fragment (oracle only): UUID fields, LIKE/NOT_LIKE, unique-index enforcement; the planner bridge assumes NaN/-0.0-free data and constants that fit their columns (the two excluded cases are known findings: +-0 through an index, constant longer than an indexed STRING field), "
        "field-name validation, id generation, the protobuf payload encoding (for document proofs the outcome of decode+proto.Equal is an input of the model; the state signature is a predicate). Ties (equal sort keys) are compared "
-       "modulo order because the engine sorts with the unstable sort.Slice. float->int64 is modelled as amd64 CVTTSD2SI. Known findings (27 signatures, 9 root causes; the VerifyDocument slice panic is repaired and its signature stays armed) "
+       "modulo order because the engine sorts with the unstable sort.Slice. float->int64 is modelled as amd64 CVTTSD2SI. Known findings (32 signatures, 10 root causes; the VerifyDocument slice panic is repaired and its signature stays armed) "
        "are genuine defects of /repo, see known_findings.json.",
   technique="Lean 4 proof (list induction over a small executable spec) + differential correspondence against embedded/document and pkg/database + model-independent oracle with classified quirks",
   design="7/C19"),
@@ -383,7 +389,7 @@ CHECKS = {
        "(ExportTx/ReadTx/ReadTxHeader/ReadTxEntry with skipIntegrityCheck=true: all at once, per tx, or sandwiched between two checked passes) and permute the checked phases (export first, Get first), "
        "so that a cache filled by a lenient or by another checked path is then consumed by a checked one; lenient answers are not judged, ReadValue of an entry handed out by a lenient read must be self-authentic "
        "(digest and length of that entry). Lean: readValueAt with the value cache as explicit state and the skip flag (Tx/ValueCache.lean): a checked read is authentic for EVERY cache content and in every read sequence "
-       "(cached_value_authentic_partial, cached_reads_authentic), the cache is transparent on unchanged logs unless an offset is cached with another length (cached_read_transparent); the repeated reads of the sandwich "
+       "(cached_value_authentic_partial, cached_reads_authentic), the cache is transparent on unchanged logs unless an offset is cached with another length (cached_read_transparent), and TruncateUptoTx evicts the values it made unreadable so that they are read from disk again (VCache.evictUpto: truncated_values_not_served_from_cache, truncation_eviction_keeps_the_rest; tied by C07's twin-store probe, not by the c09 driver); the repeated reads of the sandwich "
        "sequences are compared with the model run through the cached bytes (c09 rvc). "
        "Structure-aware alterations: committed records of BOTH header versions (version 0 = legacy digest TxEntryDigest_v1_1) are re-serialised with one grammar element "
        "(kv-metadata attribute sets incl. non-canonical encodings, key bytes, whole entries, tx metadata, header version) inserted / removed / replaced, every length and count field consistent, "
